@@ -16,7 +16,7 @@ name of different length) when hash values have a fixed length.
 import Lemmas.Hash
 
 namespace Props.C06
-open Atlas.Hash
+open Atlas Atlas.Hash
 
 /-- the sum file written for these entries reads back as the same entries (`UnmarshalText ∘
 MarshalText = id`). It holds when no file name contains a line break or leading/trailing white space
